@@ -48,7 +48,7 @@ def layout(env, struct_name, unroll):
                 field("%s_%d" % (name, i), t[1], prefix, fname)
         else:
             w = wire_width(env, t)
-            out.append(Leaf(prefix + name, pos[0], w, t, name))
+            out.append(Leaf(prefix + name, pos[0], w, t, fname))
             pos[0] += w
 
     def struct(sname, prefix):
